@@ -58,7 +58,32 @@ func Mutate(t *rapid.T, words []string, l, other *ref.List) ([]string, string) {
 		return words, "none"
 	}
 	p := rapid.IntRange(0, len(words)-1).Draw(t, "p")
-	switch h.Pick(t, "mk", 5, 2, 4, 3, 1, 1, 1, 1, 1, 1) {
+	switch h.Pick(t, "mk", 5, 2, 4, 3, 1, 1, 1, 1, 1, 1, 2) {
+	case 10: // a list word with something appended (an index keyed by a fixed-size prefix of the word
+		// cannot tell the two apart), or a proper prefix of a list word that is not a word itself
+		w := words[p]
+		if h.Pick(t, "longest", 2, 1) == 1 { // one of the longest words of the list
+			var longest []int // all words of maximal byte length
+			for i, x := range l.Words {
+				switch {
+				case len(longest) == 0 || len(x) > len(l.Words[longest[0]]):
+					longest = []int{i}
+				case len(x) == len(l.Words[longest[0]]):
+					longest = append(longest, i)
+				}
+			}
+			w = l.Words[longest[rapid.IntRange(0, len(longest)-1).Draw(t, "longw")]]
+		}
+		alt := w + h.OneOf(t, "suffix", "s", "a", "x", "\u3093", "\u30fc", "\u3099", "0", "zz")
+		if rapid.Bool().Draw(t, "cut") {
+			r := []rune(w)
+			alt = string(r[:len(r)-1])
+		}
+		if _, isWord := l.Index[alt]; isWord || alt == "" {
+			alt = w + "qq"
+		}
+		words[p] = alt
+		return words, "extended-or-cut-word"
 	case 9: // a Unicode-equivalent spelling that is not the list's own (composed kana, full-width letters)
 		alt := norm.NFC.String(words[p])
 		if alt == words[p] {
